@@ -93,7 +93,8 @@ def run_resolve_case(ctx, suite, case, oracle=None, compare=True):
         r = h % 20
         # (re-keyed templates only where the oracle does not speak in the reader's template keys / atom names)
         case['ctor'] = 'graph' if r in (0, 1) else 'fragment-dicts' if r in (2, 3) else \
-            'reordered' if (r == 4 and ctx.prop in ('C02', 'C12')) else 'string'
+            'reordered' if (r == 4 and ctx.prop in ('C02', 'C12')) else \
+            'graph-reinserted' if (r in (5, 6) and ctx.prop == 'C12') else 'string'
     ctx.feature('constructor:' + case.get('ctor', 'string'))
     try:
         try:
